@@ -2,14 +2,14 @@ import binascii, glob, json, os, shutil, subprocess, vlib
 from props import gocommon
 
 THEOREMS = ["Folang.Sem.lower_correct", "Folang.Sem.lower_correct_output", "Folang.Sem.runProg_deterministic", "Folang.Sem.grunProg_deterministic", "Folang.Sem.evalN_mono", "Folang.Sem.wfProgB_iff", "Folang.Sem.sim", "Folang.Sem.gevalN_mono", "Folang.Sem.exampleProg_wf",
-            "Folang.Sem.exampleProg_runs", "Folang.Sem.exampleProg_lowered", "Folang.Sem.exampleD9_wf", "Folang.Sem.exampleD9_runs", "Folang.Sem.exampleD9_lowered", "Folang.Sem.sim_paArgs",
+            "Folang.Sem.exampleProg_runs", "Folang.Sem.exampleProg_lowered", "Folang.Sem.exampleD9_wf", "Folang.Sem.exampleD9_runs", "Folang.Sem.exampleD9_lowered", "Folang.Sem.sim_paArgs", "Folang.Sem.sim_inert", "Folang.Sem.VRel.weakR", "Folang.Sem.geval_atoms", "Folang.Sem.exampleNested_wf", "Folang.Sem.exampleNested_runs", "Folang.Sem.exampleNested_lowering",
             "Folang.Props.C01.papp_agrees_when_pure", "Folang.Props.C01.papp_effects_late",
             "Folang.Props.C08.climb_eq_group", "Folang.Props.C14.ifElse_true", "Folang.Props.C14.ifElse_false",
             "Folang.Props.C14.ifOnly_false", "Folang.Props.C14.pipe_spec", "Folang.Props.C09.dispatch_total",
             "Folang.Props.C11.C11_interp", "Folang.Props.C11.C11_plain"]
 
 ASSUMPTIONS = [
-    "PARTIAL. Proved (Props/Sim.lean, no bound on program size, nesting or recursion): lower_correct — for every well-formed program of core Folang (literals, variables, first-order primitives, && ||, if/else with block branches, if-only, let / destructuring let, full and partial application of top-level functions, application of function values, closures, pipes, slice.Map/Filter/Fold, union and string match in return and expression position, recursion) whenever the reference semantics runProg finishes with output tr, the Go-core semantics of the lowered program finishes with the same output. The lowering model has two modes: fc AFTER the repair of D9 (given arguments of a partial application that are not inert — a literal, a variable, a field of a variable — are evaluated first, once, into _p bindings; lower_correct then needs NO purity hypothesis: wfProg true only asks that no source variable is named like a compiler-made _pN and that bound arguments are not themselves lambdas / partial applications) and tinyfo (every given argument stays inside the closure; wfProg false asks that they are pure: papp_effects_late shows the lowering is unfaithful otherwise, which was defect D9 of fc). lower_correct_output: EVERY completed Go-core run of the lowered program has exactly the source's output; runProg_deterministic / grunProg_deterministic (from evalN_mono / gevalN_mono): results do not depend on the fuel once it suffices",
+    "PARTIAL. Proved (Props/Sim.lean, no bound on program size, nesting or recursion): lower_correct — for every well-formed program of core Folang (literals, variables, first-order primitives, && ||, if/else with block branches, if-only, let / destructuring let, full and partial application of top-level functions, application of function values, closures, pipes, slice.Map/Filter/Fold, union and string match in return and expression position, recursion) whenever the reference semantics runProg finishes with output tr, the Go-core semantics of the lowered program finishes with the same output. The lowering model has two modes: fc AFTER the repair of D9 (given arguments of a partial application that are not inert — a literal, a variable, a field of a variable — are evaluated first, once, into _p bindings; lower_correct then needs NO purity hypothesis and the inert rule of the emitter is modelled completely - literals, variables, fields of a variable, LAMBDAS and PARTIAL APPLICATIONS OF INERT ARGUMENTS stay inside the closure (sim_inert, VRel.weakR, geval_atoms: they are re-evaluated at every call of the closure, in an environment extended by its _rN parameters, to values that stay related), everything else is bound once; wfProg true only asks that no source variable is named like a compiler-made _pN / _rN) and tinyfo (every given argument stays inside the closure; wfProg false asks that they are pure: papp_effects_late shows the lowering is unfaithful otherwise, which was defect D9 of fc). lower_correct_output: EVERY completed Go-core run of the lowered program has exactly the source's output; runProg_deterministic / grunProg_deterministic (from evalN_mono / gevalN_mono): results do not depend on the fuel once it suffices",
     "NOT proved: C01_full for the real pipeline. The theorem is about three models — the reference semantics evalN (Sem/Eval.lean), the lowering lowerE/lowerB (Sem/Lower.lean), the Go-core semantics gevalN (Sem/GoCore.lean). Tie on every run: (1) sem.lower — the Go really emitted for every generated function is read back with go/parser (types erased) and must EQUAL the model's lowering of the abstract function, so parser + emitter together are checked against lowerB; (2) sem.prog / c01.prog — the stdout of the compiled program must equal the output of runProg (the same definition the theorem is about; the oracle also re-evaluates the lowered program with gevalN) and of the older evaluator Oracle/FSem.lean. Text -> abstract program (parser), type inference and the type annotations of the emitted Go are not modelled (the Go type checker and the run check them per program)",
     "trusted: the Go-core semantics as a model of Go (call by value, left-to-right evaluation of call operands, short-circuit && ||, closures capture, type switch; integers unbounded) and of frt.IfElse / IfOnly / Pipe and slice.Map / Filter / Fold by their definitions; primitives on first-order data have one semantics used on both sides (their correctness is C10 / C13 / C14)",
     "outside the proved fragment, counted in coverage.distribution (outside-fragment.*): string-match arms binding a variable; those programs are still compared by stdout (c01.prog)",
